@@ -83,17 +83,35 @@ def mc_ideal(ctx, family, depth):
     ctx.stage("mc-ideal", family=family, depth=depth, distinct_states=r["distinct"], wall_s=r["wall_s"])
 
 
-def mc_witness(ctx, fid):
-    """With exactly one listed deviation switched on TLC must refute the invariant it breaks (regenerates the witness)."""
+def mc_witness(ctx, fid, kd):
+    """With the listed deviations switched on TLC must refute the property at a state showing `fid` (regenerates the witness)."""
     family, depth = ("pay", 2) if fid == "F01f" else ("seq", 3)
     cfg = ctx.path(f"mc_wit_{fid}.cfg")
-    inv = "NoIdentityWitness" if fid in IDENTITY_FIDS else "NoTableWitness"
-    lib.write_cfg(cfg, mc_consts(family, depth, [fid]), "MCInit", "MCNext", invariants=[inv])
+    inv = "NoWit" + fid
+    lib.write_cfg(cfg, mc_consts(family, depth, kd), "MCInit", "MCNext", invariants=[inv])
     r = lib.tlc(ctx, MODULE_MC, cfg, workers=1, timeout=600, expect_violation=True)
     w = r["tagged"].get("WITNESS")
     if inv not in r["invariant_violated"] or not w:
-        raise lib.ToolError(f"the model with KnownDeviations = {{{fid}}} does not refute {inv}: the deviation is not reachable in the model")
+        raise lib.ToolError(f"the model with KnownDeviations = {kd} does not reach a state showing {fid}: the listed deviation is not reachable in the model")
     return fid, w[0], r
+
+
+def replay_witnesses(ctx, wits, kd):
+    """Model-level counterexamples count only once replayed: run each witness on the real code and let the monitor say
+    which listed deviation (if any) it needed."""
+    progs = ctx.path("prog_wit.ndjson")
+    open(progs, "w").write("".join(json.dumps(w) + "\n" for _, w, _ in wits))
+    out = {}
+    for i, (fid, w, _) in enumerate(wits):
+        p1 = ctx.path(f"prog_wit_{fid}.ndjson")
+        open(p1, "w").write(json.dumps(w) + "\n")
+        t1 = ctx.path(f"trace_wit_{fid}.ndjson")
+        lib.run_driver(DRV, ["--programs", p1, "--out", t1])
+        v = lib.tlc_trace(ctx, MODULE_T, t_cfg(ctx, kd, f"t_wit_{fid}.cfg"), t1)
+        out[fid] = {"program": w, "reproduced_on_code": v.get("n" + fid, 0) > 0, "violations": len(v["violations"])}
+        if v["violations"]:
+            lib.classify_trace(ctx, v, t1, f"witness of {fid}", program_of=program_of)
+    return out
 
 
 def mc_generate(ctx, family, depth, kd):
@@ -214,10 +232,11 @@ def run(ctx):
     for family, depth in plan:
         mc_ideal(ctx, family, min(depth, 3) if family == "seq" and ctx.quick else depth)
     with ThreadPoolExecutor(max_workers=3) as ex:
-        wits = list(ex.map(lambda f: mc_witness(ctx, f), kd))
-    ctx.cov["witnesses"] = {fid: w for fid, w, _ in wits}
+        wits = list(ex.map(lambda f: mc_witness(ctx, f, kd), kd))
+        reps = list(ex.map(lambda w: replay_witnesses(ctx, [w], kd), wits))
+    ctx.cov["witnesses"] = {k: v for r in reps for k, v in r.items()}
     for fid, w, r in wits:
-        ctx.stage("mc-witness", finding=fid, calls=len(w), wall_s=r["wall_s"])
+        ctx.stage("mc-witness", finding=fid, calls=len(w["ops"]), reproduced_on_code=ctx.cov["witnesses"][fid]["reproduced_on_code"], wall_s=r["wall_s"])
     # 2. programs of the model executed on the real code and judged
     total = distinct = 0
     selftested = False
